@@ -71,6 +71,14 @@ func judgeBatch(cs *BatchCase, o *BatchObs) []scen.Finding {
 		}
 		return true
 	}
+	// ---------------------------------------------------------------- C07: the item in whose LAST permitted attempt the cancellation happened
+	// (an attempt that fails) has used up its budget like on any other day: its fallback is invoked, exactly as a single
+	// node run does it (flyt.Run consults the fallback once the attempts are exhausted; the context is looked at before
+	// an attempt, not after the last one)
+	if c := cs.Cancel; c != nil && !c.DuringWait && !c.InPrep && c.DeadlineMs == 0 && !strings.HasPrefix(c.Kind, "pre-") && cs.FB && !(cs.ErrResult && cs.ExecStyle == "result") &&
+		c.Item >= 0 && c.Item < n && c.Attempt == cs.Budget && failed[c.Item] && c.Item < len(o.Attempts) && o.Attempts[c.Item] == cs.Budget && c.Item < len(o.FBCalls) && o.FBCalls[c.Item] == 0 {
+		add("C07", "fallback-skipped-after-last-attempt:"+cc, "the context was cancelled inside attempt %d of item %d — the item's last permitted attempt, which failed: its budget is used up, yet its fallback was never invoked (a single node run invokes it in exactly this situation)", c.Attempt, c.Item)
+	}
 	// ---------------------------------------------------------------- the run is over when Run returns
 	if o.ParkedAtReturn > 0 {
 		add("C08", "executions-outlive-the-run:"+cc, "Run returned while %d item executions of this batch (concurrency %d, %s mode) were still inside exec: they go on running next to whatever the caller starts next, so the bound of %d executions per batch node no longer holds", o.ParkedAtReturn, cs.C, mode, cs.C)
